@@ -1,0 +1,19 @@
+//go:build verif
+
+package service
+
+import "com.tuntun.rangers/node/src/common"
+
+// verif hook H7: scheduling gate for the transaction pool. A verification
+// harness installs VerifGate to pause a goroutine at a named point inside a
+// pool operation (after the existence check of add, between the executed
+// write and the pending removal of MarkExecuted, between the executed delete
+// and the re-add of UnMarkExecuted) so that a chosen interleaving of
+// concurrent pool calls can be replayed deterministically. Nil by default.
+var VerifGate func(point string, hash common.Hash)
+
+func verifGate(point string, hash common.Hash) {
+	if f := VerifGate; f != nil {
+		f(point, hash)
+	}
+}
